@@ -26,6 +26,18 @@ publickey request can be dictated PER CALL ("r"), so it may change between query
 (FAILED / PARTIAL / SUCCESSFUL x FAILED / PARTIAL / SUCCESSFUL are enumerated).
 Every request step names the session's user or (generated) one of the other users.
 
+User names are what a RAW client writes into the user-name field: text (ASCII, empty, non-ASCII, mixed case) or bytes that are
+NOT valid UTF-8 (stray 0xff, Latin-1, overlong form, CESU-8 surrogate) and the valid UTF-8 name a lossy decoder turns such
+bytes into. The "user" forgery of a publickey request signs EVERY alternative form of the name on the wire (byte appended,
+another user, lossy decodings replace / ignore, lower / upper case, Unicode normal forms NFD / NFC, cut at the first
+undecodable byte, whitespace / NUL appended, empty). Every method x every such name with an approving application is
+enumerated in each run.
+
+Application policy besides the verdicts: what get_allowed_auths() answers - the full list, the empty list, one method, several -
+fixed or SHRINKING (the application drops a method from its list once its check for it answered PARTIALLY_SUCCESSFUL, so a
+partial verdict can coincide with "no methods left"). Every method x {PARTIAL, FAILED} x {empty list, only this method, only
+this method and shrinking} and a two-factor application using up its list are enumerated in each run.
+
 Callback verdicts: every check_auth_* result is generated from FAILED / PARTIAL / SUCCESSFUL AND (about one draw in 6-8)
 from values OUTSIDE the three documented constants - what a callback returns that falls off its end or is sloppy:
 None, 3, -1, "0", "", "success", (0,), 0.5 (nothing that compares equal to a constant: no 0 / False / True / 2.0).
@@ -43,7 +55,12 @@ Transport.is_authenticated(), AuthHandler.authenticated, Transport.authenticated
  (3) a probe (no signature) is never granted;
  (4) the granted identity is the approved one: Transport.get_username() equals the username the
      approving callback was asked about (for an INFO_RESPONSE: the username given to the
-     check_auth_interactive call that opened the exchange being answered).
+     check_auth_interactive call that opened the exchange being answered);
+ (5) "for that username": the name the approving callback was asked about (and get_username()) is the name that stood ON
+     THE WIRE in the granted request (for an INFO_RESPONSE: in the request that opened the exchange) under a lossless
+     decoding (strict UTF-8 or surrogateescape) - an approval obtained for a replaced / dropped / folded form of the name is
+     an approval for another user (bucket <method>:application-asked-about-a-name-that-is-not-the-name-on-the-wire); the
+     signed data of (2) always contains the bytes on the wire.
 Nothing else is asserted (a crash or disconnect without a grant satisfies the statement).
 """
 from hypothesis import strategies as st
@@ -62,7 +79,14 @@ RULE = (
     "such value is also enumerated; a grant on such a verdict is a violation); "
     "programs are built from single requests and from whole keyboard-interactive exchanges (request + 0..3 INFO_RESPONSE rounds, the "
     "application's answer generated per round: further InteractiveQuery / FAILED / PARTIAL / SUCCESSFUL) with 0..2 other steps of any "
-    "kind interleaved before each round; every request names the session's user or a generated other user (4 names); "
+    "kind interleaved before each round; every request names the session's user or a generated other user; user-name alphabet of the raw "
+    "requests: 5 text names (ASCII, empty, non-ASCII, mixed case) + 5 byte strings (4 not valid UTF-8: stray 0xff, Latin-1, overlong, "
+    "CESU-8 surrogate; 1 the U+FFFD name a lossy decoder makes of them) - a grant must be approved for, and signed over, the name on the "
+    "wire (lossless decoding), every method x every such name against an approving application is enumerated; the changed-user forgery "
+    "enumerates every alternative form of the name (byte appended, another user, lossy decoding replace/ignore, lower/upper case, NFD/NFC, cut "
+    "at the undecodable byte, whitespace/NUL appended, empty); application policy also covers get_allowed_auths(): full list / empty / one "
+    "method / several, fixed or shrinking after each PARTIAL verdict (9 lists x 2; every method x PARTIAL/FAILED x {empty, only this method, "
+    "only this method shrinking} enumerated, so a partial verdict coincides with 'no methods left'); "
     "publickey steps over 9 pool keys + 4 harness-built OpenSSH certificates x their algorithms (RSA: rsa-sha2-512/-256/ssh-rsa, with and "
     "without certificate suffix) x 16 signature variants (valid + 15 single-ingredient forgeries incl. a signature made for another real "
     "session; the changed-algorithm forgery enumerates every alternative name: other algorithm of the family, key type of the blob, "
@@ -85,6 +109,74 @@ RES.update(ODD)
 
 def is_odd(verdict):
     return verdict in ODD
+
+
+# ---- user names. A raw client writes BYTES into the user-name field: besides ordinary names (ASCII, empty, non-ASCII UTF-8,
+# mixed case) the alphabet holds names that are NOT valid UTF-8 (a stray 0xff, Latin-1, an overlong form, a CESU-8 surrogate)
+# and the valid UTF-8 name that a lossy decoder turns the first of them into (U+FFFD inside).
+STR_USERS = ["alice", "", "böb", "root", "Alice"]
+RAW_USERS = [b"al\xffice", b"b\xf6b", b"\xc0\xaf", b"root\xed\xa0\x80", b"al\xef\xbf\xbdice"]
+# ---- what the application's get_allowed_auths() returns (None: the full list). "shrink": the application removes a method from
+# its list once its check for that method answered PARTIALLY_SUCCESSFUL (a multi-factor server ticking off factors).
+FULL_ALLOWED = "password,publickey,keyboard-interactive,gssapi-with-mic,gssapi-keyex,none"
+ALLOWED = [None, "", "password", "publickey", "keyboard-interactive", "none", "password,publickey", "publickey,keyboard-interactive", "gssapi-with-mic,gssapi-keyex"]
+METHOD_OF_CB = {
+    "check_auth_none": "none",
+    "check_auth_password": "password",
+    "check_auth_publickey": "publickey",
+    "check_auth_interactive": "keyboard-interactive",
+    "check_auth_interactive_response": "keyboard-interactive",
+    "check_auth_gssapi_with_mic": "gssapi-with-mic",
+    "check_auth_gssapi_keyex": "gssapi-keyex",
+}
+
+
+def wire_name(u):
+    """The bytes of the user-name field of a request naming `u` (str: its UTF-8 form; bytes: as they are)."""
+    return u if isinstance(u, bytes) else u.encode("utf-8")
+
+
+def is_utf8(b):
+    try:
+        b.decode("utf-8")
+        return True
+    except UnicodeDecodeError:
+        return False
+
+
+def names_wire(s, u):
+    """Is `s` (the str an application callback / get_username() shows) the name `u` that stood on the wire? Any LOSSLESS
+    decoding counts (strict UTF-8, or surrogateescape for undecodable bytes); a replaced / dropped / folded byte does not."""
+    if not isinstance(s, str):
+        return False
+    try:
+        return s.encode("utf-8", "surrogateescape") == wire_name(u)
+    except UnicodeError:
+        return False
+
+
+def user_alternatives(ub):
+    """Every other name that could stand in the user field of the signed data for a request naming `ub`:
+    [(kind, bytes)], all different from ub and from each other. Index 0 is the appended byte."""
+    import unicodedata
+
+    cands = [("appended-byte", ub + b"x"), ("another-user", b"alice" if ub == b"root" else b"root")]
+    cands.append(("lossy-decoding:replace", ub.decode("utf-8", "replace").encode("utf-8")))
+    cands.append(("lossy-decoding:ignore", ub.decode("utf-8", "ignore").encode("utf-8")))
+    cands += [("lower-cased", ub.lower()), ("upper-cased", ub.upper())]
+    try:
+        txt = ub.decode("utf-8")
+        cands += [("unicode-normal-form:NFD", unicodedata.normalize("NFD", txt).encode("utf-8")), ("unicode-normal-form:NFC", unicodedata.normalize("NFC", txt).encode("utf-8"))]
+    except UnicodeDecodeError as e:
+        cands.append(("cut-at-the-first-undecodable-byte", ub[: e.start]))
+    cands += [("whitespace-appended", ub + b" "), ("nul-appended", ub + b"\x00"), ("empty", b"")]
+    out = []
+    for kind, b in cands:
+        if b != ub and b not in [x for _, x in out]:
+            out.append((kind, b))
+    return out
+
+
 PK_VARIANTS = [
     "probe",
     "valid",
@@ -138,7 +230,10 @@ def _or_odd(base, n):
 
 
 res = _or_odd(st.sampled_from(["F", "P", "S", "S"]), 6)
-users = st.sampled_from(["alice", "", "böb", "root"])
+# the session's user: an ordinary name; one draw in 8 a raw byte string (4 of the 5 are not valid UTF-8)
+users = st.integers(0, 7).flatmap(lambda k: st.sampled_from(RAW_USERS) if k == 0 else st.sampled_from(STR_USERS))
+# what get_allowed_auths() answers: the full list (half of the cases) or a generated other list incl. the empty one; shrinking or not
+allowed_st = st.integers(0, 1).flatmap(lambda k: st.none() if k == 0 else st.sampled_from(ALLOWED[1:]))
 
 
 @st.composite
@@ -151,18 +246,23 @@ def policies(draw):
         "rounds": draw(st.lists(_or_odd(st.sampled_from(["F", "P", "S", "query"]), 7), max_size=3)),
         "gssmic": draw(res),
         "keyex": draw(res),
+        "allowed": draw(allowed_st),
+        "shrink": draw(st.sampled_from([False, False, True])),
     }
 
 
 pk_r = _or_odd(st.sampled_from([None, None, None, "F", "P", "S"]), 8)
 
 
-def _pk(key, algo, v, alt=None, r=None):
-    """"alt": which alternative name the "algo" forgery writes into the signed data; "r": the application's
+def _pk(key, algo, v, alt=None, r=None, ualt=None):
+    """"alt": which alternative name the "algo" forgery writes into the signed data; "ualt": which alternative user name
+    the "user" forgery writes there (absent: the name with a byte appended); "r": the application's
     answer to exactly this message (absent: the case-wide policy for the key decides)."""
     stp = {"k": "pk", "key": key, "algo": algo, "v": v}
     if v == "algo" and alt is not None:
         stp["alt"] = alt
+    if v == "user" and ualt:
+        stp["ualt"] = ualt
     if r is not None:
         stp["r"] = r
     return stp
@@ -172,8 +272,8 @@ def _pk(key, algo, v, alt=None, r=None):
 def pk_step(draw):
     key = draw(st.sampled_from(KEYNAMES))
     algo = draw(st.sampled_from(A.key_algos(key)))
-    v = draw(st.sampled_from(PK_VARIANTS + ["valid", "probe", "algo"]))
-    return _pk(key, algo, v, draw(st.integers(0, 9)), draw(pk_r))
+    v = draw(st.sampled_from(PK_VARIANTS + ["valid", "probe", "algo", "user"]))
+    return _pk(key, algo, v, draw(st.integers(0, 9)), draw(pk_r), draw(st.integers(0, 11)))
 
 
 tok = st.one_of(st.binary(min_size=1, max_size=8), st.none(), st.just("raise"))
@@ -199,7 +299,7 @@ step = st.one_of(
     st.fixed_dictionaries({"k": st.just("other"), "method": st.sampled_from(["hostbased", "publickey2", "PASSWORD", ""])}),
 )
 
-USERS = ["alice", "", "böb", "root"]
+USERS = STR_USERS + RAW_USERS
 QRES = ["F", "P", "S", "query"]
 
 
@@ -213,7 +313,7 @@ def kbd_exchange(draw, min_rounds=0):
     out = [{"k": "kbd", "sub": draw(st.sampled_from(["", "pam"])), "r": first}]
     for j in range(nrounds):
         for stp in draw(st.lists(step, max_size=2)):
-            u = draw(st.sampled_from([None] * 4 + USERS))
+            u = draw(st.sampled_from([None] * 10 + USERS))
             out.append(dict(stp, u=u) if u is not None and stp["k"] != "resp" else stp)
         r = "query" if j < nrounds - 1 else draw(_or_odd(st.sampled_from(["F", "P", "S", "S", "query"]), 6))
         out.append({"k": "resp", "n": draw(st.integers(0, 2)), "r": r})
@@ -231,7 +331,7 @@ def pk_twostep(draw):
     r2 = draw(_or_odd(st.sampled_from(["F", "P", "S", "P", "S", None]), 7))
     v = draw(st.sampled_from(["valid"] * 6 + [x for x in PK_VARIANTS if x != "probe"]))
     between = draw(st.lists(step, max_size=1)) if draw(st.integers(0, 3)) == 0 else []
-    return [_pk(key, algo, "probe", r=r1)] + between + [_pk(key, algo, v, draw(st.integers(0, 9)), r2)]
+    return [_pk(key, algo, "probe", r=r1)] + between + [_pk(key, algo, v, draw(st.integers(0, 9)), r2, draw(st.integers(0, 11)))]
 
 
 @st.composite
@@ -251,7 +351,7 @@ def case_strategy(draw, exchange_centred=False):
         for stp in b:
             if "u" not in stp and stp["k"] != "resp":
                 # any request may name another user (the first evaluated name is what the server pins)
-                u = draw(st.sampled_from([None] * 12 + USERS))
+                u = draw(st.sampled_from([None] * 30 + USERS))
                 if u is not None:
                     stp = dict(stp, u=u)
             if stp.get("u") == user:
@@ -284,29 +384,44 @@ def make_policy(case, cur=None):
         stp = cur.get("step")
         return stp.get("r") if stp is not None and stp.get("k") == kind else None
 
+    ticked = set()  # methods whose check answered PARTIALLY_SUCCESSFUL so far (a shrinking list drops them)
+
+    def tick(cb, v):
+        if type(v) is int and v == peers.AUTH_PARTIALLY_SUCCESSFUL:
+            ticked.add(METHOD_OF_CB[cb])
+        return v
+
     def pk(user, blob):
         name = A.blob_key_name(blob)
-        return RES[planned("pk") or pol["pk"].get(name, pol["pk"]["default"])]
+        return tick("check_auth_publickey", RES[planned("pk") or pol["pk"].get(name, pol["pk"]["default"])])
 
     def kbd(user, sub):
         r = planned("kbd") or pol["kbd"]
-        return q() if r == "query" else RES[r]
+        return q() if r == "query" else tick("check_auth_interactive", RES[r])
 
     def rounds(responses):
         i = state["round"]
         state["round"] += 1
         r = planned("resp") or (pol["rounds"][i] if i < len(pol["rounds"]) else "F")
-        return q() if r == "query" else RES[r]
+        return q() if r == "query" else tick("check_auth_interactive_response", RES[r])
+
+    def allowed(username):
+        lst = pol.get("allowed")
+        lst = FULL_ALLOWED if lst is None else lst
+        if pol.get("shrink"):
+            lst = ",".join(m for m in lst.split(",") if m and m not in ticked)
+        return lst
 
     return {
-        "check_auth_none": RES[pol["none"]],
-        "check_auth_password": lambda u, p: RES[pol["password"].get(p, "F")],
+        "check_auth_none": lambda u: tick("check_auth_none", RES[pol["none"]]),
+        "check_auth_password": lambda u, p: tick("check_auth_password", RES[pol["password"].get(p, "F")]),
         "check_auth_publickey": pk,
         "check_auth_interactive": kbd,
         "check_auth_interactive_response": rounds,
-        "check_auth_gssapi_with_mic": lambda u, g: RES[pol["gssmic"]],
-        "check_auth_gssapi_keyex": lambda u, g: RES[pol["keyex"]],
+        "check_auth_gssapi_with_mic": lambda u, g: tick("check_auth_gssapi_with_mic", RES[pol["gssmic"]]),
+        "check_auth_gssapi_keyex": lambda u, g: tick("check_auth_gssapi_keyex", RES[pol["keyex"]]),
         "enable_auth_gssapi": bool(case["gss"]),
+        "get_allowed_auths": allowed,
     }
 
 
@@ -314,7 +429,7 @@ def build_pk(sid, user, stp):
     """-> (request payload, proof_valid) ; the validity is decided by the independent verifier."""
     key, algo, v = stp["key"], stp["algo"].encode(), stp["v"]
     kb = A.pub_blob(key)  # certificate keys: the certificate blob (it is what the request carries and what is signed)
-    ub = user.encode("utf-8")
+    ub = wire_name(user)
     if v == "probe":
         return A.req_pk_probe(ub, algo, kb), False
     d = dict(sid=sid, user=ub, service=A.CONN, algo=algo, keyblob=kb, method=b"publickey", omit_sid=False)
@@ -326,7 +441,8 @@ def build_pk(sid, user, stp):
     elif v == "sid-empty":
         d["sid"] = b""
     elif v == "user":
-        d["user"] = ub + b"x"
+        alts = user_alternatives(ub)
+        d["user"] = alts[stp.get("ualt", 0) % len(alts)][1]
     elif v == "service":
         d["service"] = b"ssh-userauth"
     elif v == "algo":
@@ -405,6 +521,9 @@ def execute(ctx, case, classes):
     cur = {}
     srv = peers.RecordingServer(make_policy(case, cur), allowed="password,publickey,keyboard-interactive,gssapi-with-mic,gssapi-keyex,none")
     kx = None  # the open keyboard-interactive exchange: user, rounds judged, steps interleaved so far
+    kbd_wire = None  # the name on the wire of the last keyboard-interactive request the application was asked about
+    al = pol.get("allowed")
+    classes.add("allowed-auths:" + ("full-list" if al is None else "empty" if al == "" else "only:" + al if "," not in al else "several") + (":shrinking" if pol.get("shrink") else ""))
     pkok = None  # ((key, algo), callback verdict) of the last publickey query answered with PK_OK
     first_user = None
     with A.gss_installed(stub):
@@ -420,9 +539,10 @@ def execute(ctx, case, classes):
                 probe = False
                 nxt = steps[i + 1]["k"] if i + 1 < len(steps) else None
                 if k != "resp":
+                    classes.add("user-name-on-the-wire:" + ("text" if not isinstance(u, bytes) else "raw-bytes:valid-utf8" if is_utf8(u) else "raw-bytes:not-utf8") + (":first-request" if first_user is None else ""))
                     if first_user is None:
                         first_user = u
-                    elif u != first_user:
+                    elif wire_name(u) != wire_name(first_user):
                         classes.add("request-names-another-user")
                         classes.add("other-user:" + k)
                         if kx is not None:
@@ -458,6 +578,9 @@ def execute(ctx, case, classes):
                     probe = stp["v"] == "probe"
                     classes.add("pk:" + stp["v"])
                     classes.add("pkalgo:" + stp["algo"])
+                    if stp["v"] == "user":
+                        alts_ = user_alternatives(wire_name(u))
+                        classes.add("pk:user-field-signed-as:" + alts_[stp.get("ualt", 0) % len(alts_)][0])
                     if stp["v"] == "algo":
                         classes.add("pk:algo-field-signed-as:%s:declared=%s" % (alt_kind(stp), sig_algo(stp["algo"]) + ("+cert" if A.is_cert(stp["key"]) else "")))
                     r = s.exchange(payload)
@@ -488,7 +611,22 @@ def execute(ctx, case, classes):
                 replies, dead = r.replies, r.dead
                 calls = s.calls_since(n0)
                 granted = 52 in [t for t, _ in replies] or s.authed()
-                invoked = cb is not None and any(c[0] == cb and (cb == "check_auth_interactive_response" or c[1][0] == u) for c in calls)
+                # the responsible callback was invoked - about the name that stands on the wire / about some name
+                invoked = cb is not None and any(c[0] == cb and (cb == "check_auth_interactive_response" or names_wire(c[1][0], u)) for c in calls)
+                invoked_any = cb is not None and any(c[0] == cb for c in calls)
+                if k == "kbd" and invoked_any:
+                    kbd_wire = u
+                for t_, p_ in replies:
+                    if t_ == 51:
+                        try:
+                            left, partial = A.parse_failure(p_)
+                        except R.RefError:
+                            continue
+                        left = [m for m in left if m]
+                        if partial:
+                            classes.add("partial-success-answer:methods-left=" + ("none" if not left else "1" if len(left) == 1 else "several"))
+                        elif not left:
+                            classes.add("failure-answer:methods-left=none")
                 if verdict != "S" or not proof_ok or probe:
                     out["nontrivial"] = True
                 classes.add("step:" + k)
@@ -528,6 +666,8 @@ def execute(ctx, case, classes):
                     detail = "step %d %r (user %r): replies %s, callbacks during the step %r, policy verdict %r, proof_ok=%s, get_username()=%r" % (i, stp, u, A.reply_kinds(replies), [(c[0],) + tuple(c[1][:1]) for c in calls], verdict, proof_ok, who)
                     if probe:
                         out["violation"] = ("probe-granted", "publickey:probe", detail)
+                    elif not invoked and invoked_any:
+                        out["violation"] = ("granted-for-another-user", "%s:application-asked-about-a-name-that-is-not-the-name-on-the-wire" % method, detail + "; name on the wire %r" % wire_name(u))
                     elif not invoked:
                         out["violation"] = ("granted-without-approval", "%s:callback-not-invoked" % method, detail)
                     elif is_odd(verdict):
@@ -538,7 +678,9 @@ def execute(ctx, case, classes):
                     elif not proof_ok:
                         b = "publickey:" + stp["v"] if k == "pk" else method + ":mic-rejected"
                         out["violation"] = ("granted-without-valid-proof", b, detail)
-                    elif approved_user is not None and who != approved_user:
+                    elif k == "resp" and kbd_wire is not None and asked and not names_wire(asked[-1], kbd_wire):
+                        out["violation"] = ("granted-for-another-user", "%s:application-asked-about-a-name-that-is-not-the-name-on-the-wire" % method, detail + "; the exchange was opened by a request naming %r, check_auth_interactive was asked about %r" % (wire_name(kbd_wire), asked[-1]))
+                    elif approved_user is not None and not names_wire(who, approved_user):
                         out["violation"] = (
                             "granted-for-another-user",
                             "%s:get_username-differs-from-approved-user" % method,
@@ -554,7 +696,7 @@ def execute(ctx, case, classes):
                     classes.add("approved-but-not-granted:" + k)
                 if dead:
                     classes.add("ended:" + k)
-                    if k != "resp" and u != first_user:
+                    if k != "resp" and wire_name(u) != wire_name(first_user):
                         classes.add("ended:request-for-another-user")
                     out["why"] = "dead"
                     return out
@@ -712,6 +854,43 @@ def focused_cases(quick):
                         steps.append({"k": "resp", "n": 1, "r": "query"})
                     steps += [xs, {"k": "none"}, {"k": "resp", "n": 1, "r": verdict}]
                     out.append({"user": "alice", "gss": True, "policy": pol(keyex="F", pk={"default": "P"}), "steps": steps})
+    # ---- the application's list of methods that can continue (get_allowed_auths): empty / only the method just tried / that
+    # list shrinking once the method answered PARTIAL - against the non-success verdicts, for every method; and a two-factor
+    # application whose list is used up by two PARTIAL verdicts
+    gssm = {"k": "gssmic", "mech_ok": True, "oids": 1, "tokens": [b"srv-token"], "mic_ok": True, "abort": None}
+    by_method = [
+        ("none", lambda v: dict(none=v), [{"k": "none"}]),
+        ("password", lambda v: dict(password={"good": v, "bad": "F"}), [{"k": "password", "pw": "good", "change": False}]),
+        ("publickey", lambda v: dict(pk={"default": v}), [_pk("ed25519", "ssh-ed25519", "valid")]),
+        ("keyboard-interactive", lambda v: dict(kbd=v), [{"k": "kbd", "sub": ""}]),
+        ("keyboard-interactive", lambda v: dict(kbd="query", rounds=[v]), [{"k": "kbd", "sub": ""}, {"k": "resp", "n": 1}]),
+        ("gssapi-with-mic", lambda v: dict(gssmic=v), [gssm]),
+        ("gssapi-keyex", lambda v: dict(keyex=v), [{"k": "keyex", "ctx": True, "mic_ok": True}]),
+    ]
+    for method, kw, steps in by_method:
+        for v in ("P", "F"):
+            for allowed, shrink in (("", False), (method, False), (method, True)):
+                out.append({"user": "alice", "gss": True, "policy": pol(allowed=allowed, shrink=shrink, **kw(v)), "steps": steps})
+    for second in ("P", "S", "F"):
+        out.append({"user": "alice", "gss": False, "policy": pol(allowed="password,publickey", shrink=True, password={"good": "P", "bad": "F"}, pk={"default": second}), "steps": [{"k": "password", "pw": "good", "change": False}, _pk("ed25519", "ssh-ed25519", "valid")]})
+    # ---- user names of a raw client (bytes that are not valid UTF-8, the name a lossy decoder makes of them, mixed case,
+    # non-ASCII): every method with an APPROVING application and a valid proof, and the publickey request whose signature
+    # was made over every alternative form of the name (lossy decodings, case, normal forms, cut, padded, empty)
+    for name in RAW_USERS + ["Alice", "böb"]:
+        singles = [
+            (dict(), [{"k": "password", "pw": "good", "change": False}]),
+            (dict(none="S"), [{"k": "none"}]),
+            (dict(kbd="S"), [{"k": "kbd", "sub": ""}]),
+            (dict(), [{"k": "kbd", "sub": ""}, {"k": "resp", "n": 1}]),
+            (dict(), [gssm]),
+            (dict(), [{"k": "keyex", "ctx": True, "mic_ok": True}]),
+            (dict(), [_pk("ed25519", "ssh-ed25519", "valid")]),
+        ]
+        for kw, steps in singles:
+            out.append({"user": name, "gss": True, "policy": pol(**kw), "steps": steps})
+        forged = [_pk("ed25519", "ssh-ed25519", "user", ualt=j) for j in range(len(user_alternatives(wire_name(name))))]
+        for j in range(0, len(forged), 8):
+            out.append({"user": name, "gss": False, "policy": pol(), "steps": forged[j : j + 8] + [_pk("rsa2048", "rsa-sha2-256", "valid")]})
     return out
 
 
